@@ -348,7 +348,9 @@ def main():
     seed = int(os.environ.get("VERIF_SEED", "1") or "1")
     cfg = PROPS[pid]
     t0 = time.time()
-    rundir = os.path.join(BUILD, "run", pid + ("" if REPO == "/repo" else "-" + hashlib.sha1(REPO.encode()).hexdigest()[:6]))
+    # one run directory per invocation: concurrent checks of the same property (another session, a scratch tree)
+    # must never share shard files
+    rundir = os.path.join(BUILD, "run", "%s-%d" % (pid, os.getpid()))
     os.makedirs(rundir, exist_ok=True)
     broken = []       # (kind, name, detail): proof obligations / correspondences / translators that no longer check
     check_fault = []  # failures of the check itself (forbidden tokens, unexpected axioms)
@@ -544,7 +546,8 @@ def main():
     for v in violations:
         print(v)
     if violations:
-        sys.exit(1)
+        sys.exit(1)          # the run directory is kept for inspection
+    shutil.rmtree(rundir, ignore_errors=True)
     if check_fault:
         sys.exit(3)
     sys.exit(0)
